@@ -14,10 +14,12 @@ from common import Run, corpus, gal, N, Some, GEN
 SC = 10 ** 6     # coordinates are decimals with <= 6 digits; model uses integers scaled by 1e6
 
 
-def dec(z):
+def dec(z, sc=SC):
+    """exact decimal text of z / sc (sc a power of ten)"""
     s = "-" if z < 0 else ""
     z = abs(z)
-    return "%s%d.%06d" % (s, z // SC, z % SC) if z % SC else "%s%d" % (s, z // SC)
+    digits = len(str(sc)) - 1
+    return "%s%d.%0*d" % (s, z // sc, digits, z % sc) if z % sc else "%s%d" % (s, z // sc)
 
 
 def xml_of(doc, rng, style):
@@ -25,7 +27,7 @@ def xml_of(doc, rng, style):
     lines.append("<molecule>")
     lines.append("  <atomArray>")
     for (i, e, p) in doc["atoms"]:
-        lines.append('    <atom id="%s" elementType="%s" x3="%s" y3="%s" z3="%s" />' % (i, e, dec(p[0]), dec(p[1]), dec(p[2])))
+        lines.append('    <atom id="%s" elementType="%s" x3="%s" y3="%s" z3="%s" />' % (i, e, dec(p[0], doc.get("sc", SC)), dec(p[1], doc.get("sc", SC)), dec(p[2], doc.get("sc", SC))))
     lines.append("  </atomArray>")
     if doc["bonds"] or style % 3 != 0:
         lines.append("  <bondArray>")
@@ -59,10 +61,16 @@ def gen_doc(rng, k):
         rng.shuffle(ids)
     els = [rng.choice(["C", "H", "O", "N", "Zr", "Cu", "Cl", "Ca"]) for _ in range(n)]
     mag = [1, 10, 1000, 10 ** 6][k % 4]
-    atoms = [(ids[i], els[i], tuple(rng.randrange(-mag * SC, mag * SC) for _ in range(3))) for i in range(n)]
+    sc = SC
+    if k % 6 == 5:
+        # coordinates with nine decimals, some of them tiny but not zero (1e-9 .. 3e-8)
+        sc = 10 ** 9
+        atoms = [(ids[i], els[i], tuple(rng.choice([rng.randrange(-30, 31), rng.randrange(-3 * sc, 3 * sc), 0]) for _ in range(3))) for i in range(n)]
+    else:
+        atoms = [(ids[i], els[i], tuple(rng.randrange(-mag * SC, mag * SC) for _ in range(3))) for i in range(n)]
     nb = 0 if (n == 1 or k % 4 == 0) else rng.randint(1, 2 * n)
     bonds = [tuple(rng.sample(ids, 2)) for _ in range(nb)]
-    return {"atoms": atoms, "bonds": bonds, "scheme": scheme}
+    return {"atoms": atoms, "bonds": bonds, "scheme": scheme, "sc": sc}
 
 
 def run_impl(text, via):
@@ -94,8 +102,8 @@ def oracle(doc, obs):
     if obs["elements"] != [e for _, e, _ in doc["atoms"]]:
         bad.append("elements %s, document says %s" % (obs["elements"][:6], [e for _, e, _ in doc["atoms"]][:6]))
     for i, ((_, _, p), q) in enumerate(zip(doc["atoms"], obs["pos"])):
-        if any(float(Fraction(p[d], SC)) != q[d] for d in range(3)):
-            bad.append("atom %d at %s, document says %s" % (i, q, [dec(v) for v in p]))
+        if any(float(Fraction(p[d], doc.get("sc", SC))) != q[d] for d in range(3)):
+            bad.append("atom %d at %s, document says %s" % (i, q, [dec(v, doc.get("sc", SC)) for v in p]))
             break
     if len(obs["pos"]) != len(doc["atoms"]):
         bad.append("%d atoms for %d atom entries" % (len(obs["pos"]), len(doc["atoms"])))
@@ -120,7 +128,7 @@ def main(tier, seed, replay=None):
             r = json.load(open(replay))
             if "input" in r:
                 d = r["input"]
-                docs.append({"atoms": [(a, e, tuple(p)) for a, e, p in d["atoms"]], "bonds": [tuple(b) for b in d["bonds"]], "scheme": "replay"})
+                docs.append({"atoms": [(a, e, tuple(p)) for a, e, p in d["atoms"]], "bonds": [tuple(b) for b in d["bonds"]], "scheme": "replay", "sc": d.get("sc", SC)})
         for name, cj in corpus("C16"):
             docs.append({"atoms": [(a, e, tuple(p)) for a, e, p in cj["atoms"]], "bonds": [tuple(b) for b in cj["bonds"]], "scheme": "corpus:" + name})
         if not replay:
@@ -144,13 +152,13 @@ def main(tier, seed, replay=None):
                 bad.append("loading from a path and from an open file differ")
             if bad:
                 found_input = True
-                run.violation("failing-input", {"input": {"atoms": doc["atoms"], "bonds": doc["bonds"], "xml": text}, "observed": bad[:5],
+                run.violation("failing-input", {"input": {"atoms": doc["atoms"], "bonds": doc["bonds"], "sc": doc.get("sc", SC), "xml": text}, "observed": bad[:5],
                                                 "expected": "one atom per entry in document order with its element and coordinates; one bond per bond entry between the referenced atoms",
                                                 "case_kind": doc["scheme"]})
             if len(doc["atoms"]) >= 2 and len(set(e for _, e, _ in doc["atoms"])) >= 2 and doc["bonds"]:
                 run.nontrivial((doc["atoms"], doc["bonds"]))
             obs = "None" if isinstance(o1, tuple) else "(Some (mk_loaded %s %s %s))" % (
-                gal([I("el:" + e) for e in o1["elements"]]), gal([tuple(int(round(v * SC)) for v in p) for p in o1["pos"]]), gal([(N(i), N(j)) for i, j in o1["bonds"]]))
+                gal([I("el:" + e) for e in o1["elements"]]), gal([tuple(int(round(v * doc.get("sc", SC))) for v in p) for p in o1["pos"]]), gal([(N(i), N(j)) for i, j in o1["bonds"]]))
             lits.append("mk_case (mk_cml %s %s) %s" % (gal([(I("id:" + a), I("el:" + e), tuple(p)) for a, e, p in doc["atoms"]]),
                                                       gal([(I("id:" + a), I("id:" + b)) for a, b in doc["bonds"]]), obs))
             if doc["scheme"] in ("strings", "case"):
